@@ -77,6 +77,8 @@ impl<S: BuildHasher + Clone + 'static> LFUPolicy<S> {
             return Ok(());
         }
 
+        #[cfg(transparencies_stretto_verif)]
+        crate::verif::yield_point("polclose:before_stop");
         // block until the Processor thread returns.
         self.stop_tx
             .send(())
@@ -109,9 +111,13 @@ impl<S: BuildHasher + Clone + 'static> PolicyProcessor<S> {
     #[inline]
     fn spawn(self) -> JoinHandle<()> {
         spawn(move || loop {
+            #[cfg(transparencies_stretto_verif)]
+            crate::verif::yield_point("pol:loop");
             select! {
                 recv(self.items_rx) -> items => self.handle_items(items),
                 recv(self.stop_rx) -> _ => {
+                    #[cfg(transparencies_stretto_verif)]
+                    crate::verif::note("pol:exit", &[]);
                     drop(self);
                     return;
                 },
@@ -123,6 +129,8 @@ impl<S: BuildHasher + Clone + 'static> PolicyProcessor<S> {
     fn handle_items(&self, items: Result<Vec<u64>, RecvError>) {
         match items {
             Ok(items) => {
+                #[cfg(transparencies_stretto_verif)]
+                crate::verif::note("pol:arm:items", &[items.len() as u64]);
                 let mut inner = self.inner.lock();
                 inner.admit.increments(items);
             }
